@@ -609,6 +609,10 @@ func ZZ_C12_seq(a []int) {
 			return
 		}
 		zzViewEq(zzSnap(p), zzExpect(abs), "after step "+zzItoa(i)+" (setter "+zzItoa(k)+")")
+		// encoding and rendering between the steps must not freeze anything
+		var w zzSink
+		p.WriteTo(&w)
+		_ = p.String()
 	}
 	zzReach("seq")
 	zzWireReflects(p, abs, "after the sequence")
